@@ -204,12 +204,13 @@ Qed.
 Print Assumptions multichan_no_stranded_one_list_refuted.
 
 (* Capacity and exactly-once-in-order of the protocol in /repo, relative to mutual exclusion
-   of the channel lock (property C03, proved separately for src/fiber_mutex.c): [reach_excl
-   false k progs] = reachable from MChan.init k progs through states in which at most one
-   fiber holds the channel lock (MChanProofs2.holds / excl).
-   Full statements multichan_capacity / multichan_exactly_once_in_order: the same for plain
-   [reachable MChan.M (MChan.init k progs)]; what is missing is exactly
-     forall s, reachable MChan.M (MChan.init k progs) s -> MChanProofs2.excl s. *)
+   of the channel lock: [reach_excl false k progs] = reachable from MChan.init k progs through
+   states in which at most one fiber holds the channel lock (MChanProofs2.holds / excl).
+   The hypothesis is DISCHARGED in Properties_C11_excl.v (multichan_lock_exclusion,
+   multichan_reach_excl: every reachable state of MChan.M satisfies excl, for both list
+   variants), which also states the unconditional theorems multichan_capacity and
+   multichan_exactly_once_in_order.  The two relative statements are kept here under their
+   _partial names because the unconditional ones are derived from them. *)
 Theorem multichan_capacity_partial :
   forall (k : nat) (progs : list (list MChan.mop)) (s : MChan.st),
     MChanProofs2.reach_excl false k progs s ->
@@ -245,9 +246,10 @@ Print Assumptions multichan_exactly_once_in_order_partial.
    (2) hence no reachable state is stranded;
    and, as regression, (3) the one-list abstract protocol does strand with several senders and
    receivers (MChanAbs.abs_stranded_example).
-   Missing for the full statement: the refinement from MChan.M to MChanAbs.astep2, which needs
-   C03 in full for this client (mutual exclusion and no stranded locker for the channel lock)
-   and the atomicity of an attempt under it. *)
+   Missing for the full statement: the refinement from MChan.M to MChanAbs.astep2.  Mutual
+   exclusion of the channel lock for this client is now proved (Properties_C11_excl.v); what is
+   left is "no stranded locker" for the channel lock inside this client and the simulation of
+   one locked attempt by one abstract step. *)
 Theorem multichan_no_stranded_partial :
   (forall (size nfib : nat) (st0 st : MChanAbs.ast2),
      (0 < size)%nat -> MChanAbs.ainit2 st0 -> MChanAbs.areach2 size nfib st0 st ->
